@@ -183,6 +183,9 @@ def run(tier, seed):
     labels6 = {c[4]: (c[0], c[1], c[2], c[3]) for i, c in enumerate(g6) if i in k6}
     do_source('S6-granularity', '\n'.join(c[3] for i, c in enumerate(g6) if i in k6) + '\n', sorted(labels6), [(2000, 2050)], labels=labels6, stricts=(False, True),
               arduino={'step': 3600, 'win': 2 * 3600})
+    # ---- S12: a policy left by one zone and picked up again by another, with one-off rules inside the gap
+    t12, z12 = mutants.rejoin_source()
+    do_source('S12-rejoin', t12, z12, [(2000, 2050)], arduino={'step': 6 * 3600, 'win': 3600})
     # ---- S11: the layouts zic accepts for the same zone
     for var, t11, z11, l11 in mutants.layout_source():
         tabs11 = do_source('S11-layout-' + var, t11, z11 + sorted(l11), [(2000, 2050)])
